@@ -261,12 +261,33 @@ func (p *Proxy) handleLoop(conn net.Conn) {
 	defer p.conns.Done()
 	var s *Session
 	defer func() {
+		// The session's connection may have been replaced by its TLS upgrade, which on a
+		// traffic shaped listener is wrapped in a shaped connection with resources of its
+		// own: that one is closed too.
+		cur := conn
+		if s != nil {
+			cur = s.currentConn()
+		}
 		if s != nil && s.Hijacked() {
 			// The connection was the hijacker's: it is closed, not read from any more.
+			if cur != conn {
+				cur.Close()
+			}
 			conn.Close()
 			return
 		}
+		if cur != conn {
+			// End the TLS session in good order (close_notify) without closing the socket
+			// under it yet: closing the socket is closeClientConn's business, so that
+			// input that is still unread does not reset the connection.
+			if cw, ok := cur.(interface{ CloseWrite() error }); ok {
+				cw.CloseWrite()
+			}
+		}
 		closeClientConn(conn)
+		if cur != conn {
+			cur.Close()
+		}
 	}()
 	if p.Closing() {
 		return
@@ -280,15 +301,6 @@ func (p *Proxy) handleLoop(conn net.Conn) {
 		log.Errorf("martian: failed to create session: %v", err)
 		return
 	}
-	// The session's connection may have been replaced by its TLS upgrade, which on
-	// a traffic shaped listener is wrapped in a shaped connection with resources
-	// of its own: close that one too.
-	defer func() {
-		if c := s.currentConn(); c != conn {
-			c.Close()
-		}
-	}()
-
 	ctx, err := withSession(s)
 	if err != nil {
 		log.Errorf("martian: failed to create context: %v", err)
